@@ -100,12 +100,22 @@ def run_one(prop, m, keep_output=False):
         shutil.rmtree(scratch, ignore_errors=True)
 
 
-def run_all(prop, say=print, ids=None):
+def run_all(prop, say=print, ids=None, budget_s=None):
     ms = load(prop)
     out = []
-    for i, m in enumerate(ms):
+    t_start = time.time()
+    skipped = 0
+    # most recent additions first: when the time budget of the thorough tier runs out, the oldest edits (which have been
+    # run many times) are the ones left out
+    order = list(enumerate(ms))
+    if budget_s:
+        order = order[::-1]
+    for i, m in order:
         m.setdefault('id', 'm%02d' % (i + 1))
         if ids and m['id'] not in ids:
+            continue
+        if budget_s and time.time() - t_start > budget_s:
+            skipped += 1
             continue
         r = run_one(prop, m)
         out.append(r)
@@ -118,6 +128,7 @@ def run_all(prop, say=print, ids=None):
                "not_decided": [r for r in breaking if r['status'] not in ('killed', 'survived')],
                "neutral_edits": len(neutral), "neutral_edits_silent": sum(1 for r in neutral if r['status'] == 'neutral-ok'),
                "neutral_edits_alarmed": [r for r in neutral if r['status'] != 'neutral-ok'],
+               "not_run_time_budget": skipped, "time_budget_s": budget_s,
                "results": out,
                "how": "each edit applied to a scratch copy of /repo/python, quick check run against the copy; killed = exit 1 "
                       "with a VIOLATION line"}
